@@ -116,8 +116,34 @@ def gen_rearm_walk(rng, walk):
     return lines
 
 
+def gen_send_to_crashed(rng, walk):
+    """template: a node is crashed in the simulator, then live processes send to its processes (and to live ones); those
+    messages sit in the simulator's queue until their delivery time, when they are discarded: the snapshot must not hand them to
+    the checker, and must hand over everything else"""
+    seed = rng.randrange(12)
+    lines = [f"seed {seed}", f"draws {sim_suite.draws_for(seed)}", "node n0", "node n1", "node n2", "proc p0 n0", "proc p1 n1 rec", "proc p2 n2 rec"]
+    lines += ["rule p0 0 L:m0 0 S:m1:=x:p1 S:m1:=y:p2", "rule p2 0 L:m0 0 S:m1:=z:p1", "rule p1 0 M:m1 0 L:m2:$", "rule p2 0 M:m1 0 L:m2:$",
+              f"rule p1 0 L:m0 0 T:t0:{rng.randint(1, 3)}", "rule p1 0 T:t0 0 L:m3:=t"]
+    lines.append(f"net delay {rng.choice([1, 2, 4])}")
+    if rng.random() < 0.5:
+        lines.append("local p1 m0 =a")          # a timer of the node that is going to crash
+    lines.append("crash n1")
+    lines.append("local p0 m0 =a")
+    if rng.random() < 0.5:
+        lines.append("local p2 m0 =a")
+    if rng.random() < 0.3:
+        lines.append("step")
+    lines += ["refenum", f"mc run {rng.choice(['dfs', 'bfs'])} {rng.choice(['full', 'disabled'])} inv=none goal=noev prune=none collect=none"]
+    for _ in range(walk):
+        lines += ["step", "proj"]
+    lines += ["steps 6", "obs"]
+    return lines
+
+
 def gen_snapshot_scenario(rng, with_steps=True, faults=True, walk=0):
     """a simulated prefix, then `mc run` (snapshot + exploration), optionally followed by a simulated walk"""
+    if rng.random() < 0.06:
+        return gen_send_to_crashed(rng, walk)
     if walk and rng.random() < 0.06:
         return gen_rearm_walk(rng, walk)
     r0 = rng.random()
@@ -157,7 +183,14 @@ def gen_snapshot_scenario(rng, with_steps=True, faults=True, walk=0):
         if with_steps and rng.random() < 0.5:
             lines.append(rng.choice(["step", "steps 2", "for 1", "for 3"]))
     if len(nodes) > 1 and rng.random() < 0.25:
-        lines.append(f"crash {rng.choice(nodes)}")
+        down = rng.choice(nodes)
+        lines.append(f"crash {down}")
+        # the others keep talking to the crashed node: what they send to it stays queued in the simulator (it is discarded at
+        # delivery time) and must not be part of the snapshot
+        where = {l.split()[1]: l.split()[2] for l in topo if l.startswith("proc ")}
+        again = [l for l in locals_ if where.get(l.split()[1]) != down]
+        if again and rng.random() < 0.7:
+            lines.append(rng.choice(again))
     if with_steps:
         for _ in range(rng.randint(0, 3)):
             lines.append(rng.choice(["step", "step", "for 2"]))
@@ -349,8 +382,17 @@ def snapshot_flight_monitor(lines, out):
     return None
 
 
+def snapshot_panic_monitor(lines, out):
+    """the checker built from a snapshot must never trip its own assertions about crashed nodes (an event delivered to, or a
+    timer fired on, a crashed node): whatever was pending toward a crashed node is not part of the snapshot"""
+    for l in out:
+        if l.startswith("PANIC ") and "crashed node" in l:
+            return f"model checking from the snapshot panicked: {l[6:]}"
+    return None
+
+
 def snapshot_monitor(lines, out):
-    return snapshot_timer_monitor(lines, out) or snapshot_flight_monitor(lines, out)
+    return snapshot_timer_monitor(lines, out) or snapshot_flight_monitor(lines, out) or snapshot_panic_monitor(lines, out)
 
 
 def report(v, bad, name, monitor=None, monfail=()):
@@ -413,7 +455,7 @@ def judge_mc_transparent(v, scen, impl, name):
     observations are the same with and without the `mc run` in the middle"""
     from .common import run_blocks, VH, JOBS, chunks, STALL_S
     from concurrent.futures import ThreadPoolExecutor
-    MC = ("run ", "E ", "C ", "T ", "stat ", "NETS ")
+    MC = ("run ", "E ", "C ", "T ", "stat ", "NETS ", "PANIC ")
     plain = [(nm, [l for l in lines if not l.startswith(("mc ", "refenum", "cb "))]) for nm, lines in scen
              if any(l.startswith("mc ") for l in lines) and not any(l.startswith("cb ") for l in lines)]
     parts = chunks([sim_suite.block(nm, l) for nm, l in plain], JOBS)
